@@ -77,8 +77,15 @@ namespace vh {
         int64_t a, b, c;
     };
     extern std::vector<Event> g_log;
+    struct AtomicSection
+    {
+        AtomicSection() { sim_atomic_begin(); }
+        ~AtomicSection() { sim_atomic_end(); }
+        AtomicSection(AtomicSection const&) = delete;
+    };
     inline void ev(int kind, int64_t a = 0, int64_t b = 0, int64_t c = 0)
     {
+        AtomicSection atomic;
         g_log.push_back(Event{sim_seq(), sim_tid(), kind, a, b, c});
         sim_hash_mix(((uint64_t) kind << 48) ^ ((uint64_t) a << 16) ^ (uint64_t) b);
     }
@@ -100,6 +107,7 @@ namespace vh {
     };
     extern RunCtx* g_ctx;
     extern bool g_gdb_on_fail;
+    extern char g_trace_path[512];
 
     // named probe counters → result line
     void probe(char const* name, uint64_t n = 1);
